@@ -145,6 +145,40 @@ def build_impl(variant="asan"):
     for o in olds[:-3]: shutil.rmtree(o, ignore_errors=True)
     return ok, log, exe
 
+def build_cabx():
+    """cabextract.c wrapped (harness/cabx.c) + the library, ASan/UBSan; returns (ok, log, exe)"""
+    CX = os.path.join(REPO, "cabextract")
+    h = hashlib.sha256()
+    for f in sorted(glob.glob(os.path.join(MSPACK, "*.[ch]")) + glob.glob(os.path.join(CX, "src", "*.c")) + glob.glob(os.path.join(CX, "*.[ch]")) + [os.path.join(VERIF, "harness", "cabx.c")]):
+        h.update(f.encode()); h.update(open(f, "rb").read())
+    d = os.path.join(CACHE, "cabx-" + h.hexdigest()[:20]); exe = os.path.join(d, "cabx_drv")
+    if os.path.exists(exe): return True, "", exe
+    os.makedirs(d, exist_ok=True)
+    feats = open(os.path.join(VERIF, "harness", "features.txt")).read().split()
+    cfg = ["-DHAVE_CONFIG_H"] if os.path.exists(os.path.join(CX, "config.h")) else ["-DHAVE_TOWLOWER=1", "-DHAVE_WCTYPE_H=1", "-DHAVE_UTIME=1", "-DHAVE_UTIME_H=1", "-DHAVE_MKDIR=1", "-DHAVE_UMASK=1", "-DHAVE_FNMATCH_H=1", "-DHAVE_GETOPT_H=1", "-DHAVE_STRCASECMP=1", "-DHAVE_STRINGS_H=1", "-DHAVE_SYS_STAT_H=1", "-DHAVE_SYS_TYPES_H=1", "-DHAVE_DIRENT_H=1", '-DVERSION="x"'] + feats
+    srcs = [os.path.join(VERIF, "harness", "cabx.c"), os.path.join(CX, "md5.c")] + [os.path.join(MSPACK, u + ".c") for u in ("system", "cabd", "lzxd", "mszipd", "qtmd")]
+    cmd = ["gcc", "-O1", "-g", "-w"] + SAN.split() + cfg + ["-I", CX, "-I", os.path.join(CX, "mspack"), "-I", MSPACK, "-o", exe] + srcs
+    rc, out = sh(cmd, timeout=300)
+    if rc != 0: shutil.rmtree(d, ignore_errors=True)
+    for o in sorted(glob.glob(os.path.join(CACHE, "cabx-*")), key=os.path.getmtime)[:-2]: shutil.rmtree(o, ignore_errors=True)
+    return rc == 0, out, exe
+
+def build_cabextract():
+    """the cabextract binary from REPO's working tree (gcc directly, config.h of the configured tree); returns (ok, log, exe)"""
+    CX = os.path.join(REPO, "cabextract")
+    h = hashlib.sha256()
+    for f in sorted(glob.glob(os.path.join(MSPACK, "*.[ch]")) + glob.glob(os.path.join(CX, "src", "*.c")) + glob.glob(os.path.join(CX, "*.[ch]"))):
+        h.update(f.encode()); h.update(open(f, "rb").read())
+    d = os.path.join(CACHE, "cabextract-" + h.hexdigest()[:20]); exe = os.path.join(d, "cabextract")
+    if os.path.exists(exe): return True, "", exe
+    os.makedirs(d, exist_ok=True)
+    srcs = [os.path.join(CX, "src", "cabextract.c"), os.path.join(CX, "md5.c")] + [os.path.join(MSPACK, u + ".c") for u in ("system", "cabd", "lzxd", "mszipd", "qtmd")]
+    cmd = ["gcc", "-O1", "-g", "-w", "-DHAVE_CONFIG_H", "-DMSPACK_NO_DEFAULT_SYSTEM", "-I", CX, "-I", os.path.join(CX, "mspack"), "-I", MSPACK, "-o", exe] + srcs
+    rc, out = sh(cmd, timeout=300)
+    if rc != 0: shutil.rmtree(d, ignore_errors=True)
+    for o in sorted(glob.glob(os.path.join(CACHE, "cabextract-*")), key=os.path.getmtime)[:-2]: shutil.rmtree(o, ignore_errors=True)
+    return rc == 0, out, exe
+
 ASAN_ENV = dict(os.environ, ASAN_OPTIONS="detect_leaks=0:abort_on_error=0:exitcode=86:allocator_may_return_null=1", UBSAN_OPTIONS="print_stacktrace=1:halt_on_error=1:exitcode=87", MSAN_OPTIONS="exitcode=88")
 
 def run_lines(exe, args, lines, timeout=600):
